@@ -14,23 +14,31 @@ Entry(kind, k) ==
      xt    |-> IF i % 2 = 0 THEN 1 ELSE 0]
 DevTab(kind, n) == [k \in 1..n |-> Entry(kind, k)]
 
+\* the checksum is chosen so that the bytes of an INFO reply parse as an element (log: first
+\* byte a type code 1..8; param: type nibble known and a NUL among the following bytes) -- a
+\* duplicated INFO reply must still not be taken for one
 Cfg(kind, ver, n, cached, resend) ==
-    [kind |-> kind, ver |-> ver, dev |-> DevTab(kind, n), crc |-> <<17, 34, 51, 68>>, cached |-> cached, resend |-> resend]
+    [kind |-> kind, ver |-> ver, dev |-> DevTab(kind, n), crc |-> <<3, 66, 0, 67>>, cached |-> cached, resend |-> resend]
+\* cache states: absent, written by this release, written by a release without 'extended'
+\* (for the log table such a file does not differ from "own")
+CS(kind) == IF kind = "param" THEN {"none", "own", "old"} ELSE {"none", "own"}
 
-\* sizes 0..3, both kinds, both protocol generations, cache hit and miss, with and without retry
+\* sizes 0..3, both kinds, both protocol generations, cache states, with and without retry
 ConfigsSmall == {Cfg(k, v, n, c, r) : k \in {"log", "param"}, v \in {1, 2}, n \in 0..3,
-                                      c \in BOOLEAN, r \in BOOLEAN}
-ConfigsQuick == {Cfg(k, v, n, c, TRUE) : k \in {"log", "param"}, v \in {1, 2}, n \in 0..3, c \in BOOLEAN}
+                                      c \in {"none", "own", "old"}, r \in BOOLEAN}
+ConfigsQuick == UNION {{Cfg(k, v, n, c, TRUE) : v \in {1, 2}, n \in 0..3, c \in CS(k)} : k \in {"log", "param"}}
 \* the 8-bit boundary (V1 tables end at 255 entries)
-ConfigsBoundary == {Cfg(k, 2, n, FALSE, TRUE) : k \in {"log", "param"}, n \in {254, 255, 256, 257, 258, 300}}
-                   \cup {Cfg(k, 1, n, FALSE, TRUE) : k \in {"log", "param"}, n \in {254, 255}}
-ConfigsBoundaryQuick == {Cfg("param", 2, 257, FALSE, TRUE)}
+ConfigsBoundary == {Cfg(k, 2, n, "none", TRUE) : k \in {"log", "param"}, n \in {254, 255, 256, 257, 258, 300}}
+                   \cup {Cfg(k, 1, n, "none", TRUE) : k \in {"log", "param"}, n \in {254, 255}}
+ConfigsBoundaryQuick == {Cfg("param", 2, 257, "none", TRUE)}
 \* for the bug configurations
-ConfigsBugSmall == {Cfg(k, v, n, FALSE, TRUE) : k \in {"log", "param"}, v \in {1, 2}, n \in 1..3}
-ConfigsBug257 == {Cfg("log", 2, 257, FALSE, TRUE)}
+ConfigsBugSmall == {Cfg(k, v, n, "none", TRUE) : k \in {"log", "param"}, v \in {1, 2}, n \in 1..3}
+ConfigsBugLog == {Cfg("log", v, n, "none", TRUE) : v \in {1, 2}, n \in 0..3}
+ConfigsBugCache == {Cfg("param", v, n, c, TRUE) : v \in {1, 2}, n \in 1..3, c \in {"own", "old"}}
+ConfigsBug257 == {Cfg("log", 2, 257, "none", TRUE)}
 \* simulation (spec -> code): small and medium tables
-ConfigsSim == {Cfg(k, v, n, c, TRUE) : k \in {"log", "param"}, v \in {1, 2}, n \in {0, 1, 2, 3, 4, 7}, c \in BOOLEAN}
+ConfigsSim == UNION {{Cfg(k, v, n, c, TRUE) : v \in {1, 2}, n \in {0, 1, 2, 3, 4, 7}, c \in CS(k)} : k \in {"log", "param"}}
 WindowAll == 0..65535
 WindowBoundary == {0, 1, 253, 254, 255, 256, 257, 299}
-ConfigsSmall4 == {Cfg(k, v, n, c, r) : k \in {"log", "param"}, v \in {1, 2}, n \in 0..4, c \in BOOLEAN, r \in BOOLEAN}
+ConfigsSmall4 == UNION {{Cfg(k, v, n, c, r) : v \in {1, 2}, n \in 0..4, c \in CS(k), r \in BOOLEAN} : k \in {"log", "param"}}
 ====
